@@ -352,6 +352,30 @@ def _reentrant_sites(ctx, f: Func):
             out.append(cs.call)
         elif any(id(t) in loops or ctx.cg.reaches(t, loops) for t in cs.targets):
             out.append(cs.call)
+    # a generator hands control to its consumer at every yield: when a loop over it runs script code in its body
+    # (the callback of forEach/map/..., an element's own toString), that code runs between two steps of the generator
+    if not isinstance(f.node, ast.Lambda) and any(isinstance(y, (ast.Yield, ast.YieldFrom)) for y in f.own_nodes()) and not getattr(f, "_consumer_probe", False):
+        f._consumer_probe = True
+        try:
+            consumer_runs_script = False
+            for cs in ctx.cg.sites:
+                if not any(t is f for t in cs.targets):
+                    continue
+                g = cs.func
+                holder = getattr(cs.call, "_parent", None)
+                # for .. in gen(..): body   |   <comprehension over gen(..)>
+                sites_g = _reentrant_sites(ctx, g) if g is not f else []
+                if isinstance(holder, ast.For) and holder.iter is cs.call:
+                    if any(any(x is c for b in holder.body for x in ast.walk(b)) for c in sites_g):
+                        consumer_runs_script = True
+                elif isinstance(holder, ast.comprehension):
+                    comp = getattr(holder, "_parent", None)
+                    if comp is not None and any(any(x is c for x in ast.walk(comp)) for c in sites_g):
+                        consumer_runs_script = True
+            if consumer_runs_script:
+                out.extend(y for y in f.own_nodes() if isinstance(y, (ast.Yield, ast.YieldFrom)))
+        finally:
+            f._consumer_probe = False
     return out
 
 
